@@ -323,7 +323,7 @@ def TcpSock.asyncReadImpl (s : TcpSock) (op : ReadOp) : TcpSock × List NEff :=
   match r with
   | .error .wouldBlock => ({ s with recvH := some op, recvNull := false }, [])
   | .error e => ({ s1 with recvH := none }, [.post { h := op.h, ec := e, extra := "n=0 data=-" }])
-  | .ok data => ({ s1 with recvH := none }, [.post { h := op.h, ec := .ok, extra := readExtra data }])
+  | .ok data => ({ s1 with recvH := none }, [.post { h := op.h, ec := .ok, extra := readExtra data, data := data }])
 
 /-- `async_wait_read_impl(handler)` -/
 def TcpSock.asyncWaitReadImpl (s : TcpSock) (h : Nat) : TcpSock × List NEff :=
